@@ -191,6 +191,7 @@ type Run struct {
 	hooks              []opHook
 	visibleOps         int
 	inHook             bool
+	schedOff           bool
 	tmpCount           int
 	ownParams          bool
 	switches           int
@@ -777,6 +778,9 @@ func (r *Run) currentModelOrSolve() map[string]uint64 {
 }
 
 func (r *Run) violate(g *Goroutine, kind, label string, m map[string]uint64) {
+	if os.Getenv("GOSYM_DEBUG") != "" {
+		fmt.Fprintf(os.Stderr, "[g?] VIOLATE %s %s\n", kind, label)
+	}
 	v := &Violation{Kind: kind, Label: label, Site: r.siteOf(g), Tags: map[string]string{}}
 	for k, x := range r.tags {
 		v.Tags[k] = x
